@@ -8,7 +8,7 @@ THOROUGH_SCALE = 8.0   # 16 shards; see DESIGN.md section 7
 
 RULE = (
     "requests of every outcome class (syntax error by truncation, validation error, missing required "
-    "variable, unknown and ambiguous operation name, successful and partially failing executions with "
+    "variable, unknown and ambiguous operation name, operations whose root selections are all excluded, successful and partially failing executions with "
     "ResolverError and nulls in non-null positions) are issued with 1-3 stacked recording "
     "instrumentations (plus 0-2 partial members overriding 1-4 hooks each, which must receive exactly "
     "the firings of those hooks that a full member receives) and 0-3 recording middlewares under all six executor/runtime configurations, "
@@ -35,6 +35,7 @@ EXPECTED_STAGES = {
     "variables": ["query", "parsing", "validation"],
     "operation-name": ["query", "parsing", "validation"],
     "executed": ["query", "parsing", "validation", "execution"],
+    "executed-empty": ["query", "parsing", "validation", "execution"],
 }
 
 
@@ -58,6 +59,13 @@ def make_requests(rng, case):
         out.append(("variables", text, op, v2, doc))
     if len(doc.operations) > 1:
         out.append(("operation-name", text, None, variables, doc))      # ambiguous: no name given
+    # every root selection excluded: the execution stage opens and closes around nothing
+    empty = opgen.OOperation("query", "NothingSelected", [], [])
+    out.append(("executed-empty", rng.choice([
+        "query NothingSelected { __typename @skip(if: true) }",
+        "query NothingSelected($t: Boolean! = true) { __typename @skip(if: $t) ... @include(if: false) { __typename } }",
+        "query NothingSelected { ...F @include(if: false) } fragment F on %s { __typename }" % case.ir.query,
+    ]), empty, {}, doc))
     fake = opgen.OOperation(op.kind, "NoSuchOperation", op.selection, op.variables)
     out.append(("operation-name", text, fake, variables, doc))
     return out
@@ -97,7 +105,9 @@ def run(ctx):
                         "variables": variables, "class": cls, "instrumentations": n_instr, "middlewares": n_mw,
                         "partial_members": [(h, pos) for _t, h, pos in partials],
                         "operation_name": op.name if op is not None else None}
-                configs = exec_mon.CONFIGS if cls == "executed" else rng.sample(exec_mon.CONFIGS, 3)
+                if cls == "executed-empty":
+                    expected_paths = set()
+                configs = exec_mon.CONFIGS if cls.startswith("executed") else rng.sample(exec_mon.CONFIGS, 3)
                 # a quarter of the parseable requests arrive as Document objects: no parsing stage then
                 request = text
                 if cls != "syntax" and rng.random() < 0.25:
@@ -182,8 +192,10 @@ def run(ctx):
                             observed = "executed" if isinstance(res.data, dict) else None
                             if observed == "executed" and cls != "executed":
                                 pass
-                            elif cls == "executed":
+                            elif cls.startswith("executed"):
                                 problems.append(("stage:unexpected-set-for-%s" % cls, repr(stages)))
+                        if cls == "executed-empty":
+                            problems += instr_mon.check_fields(events, expected_paths, n_mw)
                         if cls == "executed":
                             ctx.count("fields_expected", len(expected_paths))
                             no_call = set(tuple(p) for p, k in ref[2] if k == "argument")
